@@ -114,7 +114,7 @@ def run_property(prop, tier, seed, impl="py", only=None):
     for h in mine:
         if h.kind != "proof":
             continue
-        for case in prove.case_product(h):
+        for case in prove.case_product(h, tier):
             tmo = h.timeout[tier] if isinstance(h.timeout, dict) and tier in h.timeout else T["timeout_ms"]
             jobs.append((h.id, case, tmo, impl, (), T["max_paths"]))
     nproc = min(16, max(1, len(jobs)))
@@ -163,7 +163,7 @@ def run_property(prop, tier, seed, impl="py", only=None):
     live_harness = set()
     for h in special:
         rep.functions.update(h.functions)
-        for case in prove.case_product(h):
+        for case in prove.case_product(h, tier):
             native_jobs.append((h.kind, h, case, None, None))
     for (hid, case, tmo, _, _, _), res in zip(jobs, results):
         h = hs[hid]
